@@ -213,6 +213,7 @@ def genSam (d : Desc) (c : Compiled) (off : Option (Int × Int)) : D (List SamRu
   let rules := samRules d c off
   if (rules.any fun r => decide (r.range.stop > (2 : Int) ^ d.addrW)) = true then
     throw (.range "Address range exceeds the address space")
+  else if decide ((rules.map (·.name)).Nodup) = false then throw (.names "Address map entry name is not unique")
   else if checkNoOverlap (samAsMap rules) = false then throw (.overlap "Overlapping ranges")
   else pure rules
 
